@@ -7,7 +7,7 @@
      that id (late frames are discarded). *)
 From Coq Require Import ZArith List Bool Lia.
 From Verif Require Import Base.Wrap Gen.GenConsts Gen.GenFrame Model.RelayItems Spec.WireOk
-  Proofs.RelayAssocP Proofs.RelayCoreP Proofs.RelayInvP Proofs.RelayTimerP Proofs.RelaySilentP.
+  Proofs.RelayAssocP Proofs.RelayCoreP Proofs.RelayInv9P Proofs.RelayTimerP Proofs.RelaySilentP.
 Import ListNotations.
 Local Open Scope Z_scope.
 
